@@ -202,3 +202,34 @@ def replay(run, pid, behs, seed, pipeline_every=0):
     if behs:
         b = behs[len(behs) // 2]
         run.sample({"indent": b["ind"], "opening_line_rest": b["first"], "body": b["body"], "leader": b["leader"]})
+
+
+def big_file_case(run):
+    """A module larger than any plausible read buffer, with multi-byte characters at every offset class: each doc
+    line must arrive verbatim (C01: non-ASCII characters unchanged, whatever their byte offset in the file)."""
+    import agg
+    from rstparse import Page
+    parts = []
+    want = {}
+    for i in range(160):
+        line = "é" * (7 + i % 5) + " w%d " % i + "漢" * (3 + i % 7) + "🙂" + "ß" * (i % 3)
+        want["big_%d(" % i] = line
+        parts.append("#[[[\n# %s\n#]]\nfunction(big_%d a)\nendfunction()\n" % (line, i))
+        if i % 3 == 0:
+            parts.append("# " + "x" * (i % 17) + "\n")      # shifts the byte offsets irregularly
+    src = "".join(parts)
+    status, text, _, _ = agg.run_real(src, agg.make_settings())
+    run.count("bigfile")
+    case = {"source_bytes": len(src.encode("utf-8")), "features": {"big_file": True, "nonascii": True}}
+    if status != "ok":
+        run.violation(case, "page", text, "the pipeline raised on a large UTF-8 file")
+        return
+    page = Page(text)
+    bad = []
+    for nd in page.nodes:
+        for prefix, line in want.items():
+            if nd.name == "function" and nd.arg.startswith(prefix):
+                if line not in nd.text_lines:
+                    bad.append([prefix, line, nd.text_lines[:2]])
+    if bad or sum(1 for nd in page.nodes if nd.name == "function") != 160:
+        run.violation(case, "every doc line verbatim", bad[:3], "doc text of a large UTF-8 file is not reproduced verbatim")
